@@ -1795,9 +1795,44 @@ def build_tables():
     return build_table(set()), build_table({"PRIMITIV_USE_CACHE"})
 
 
+PIN = os.path.join(VERIF, ".cache", "optable.pin")
+
+
+def pinned_by_other():
+    """A running C04 check owns Gen/OpTable.lean (it pins the file while it builds and runs, because the
+    regeneration step of every other check — possibly of another working tree — would rewrite it)."""
+    try:
+        pid = int(open(PIN).read().split()[0])
+    except Exception:
+        return False
+    if pid == os.getpid():
+        return False
+    try:
+        os.kill(pid, 0)
+    except OSError:
+        return False
+    return True
+
+
+def pin():
+    os.makedirs(os.path.dirname(PIN), exist_ok=True)
+    with open(PIN, "w") as f:
+        f.write("%d\n%s\n" % (os.getpid(), repo()))
+
+
+def unpin():
+    try:
+        if int(open(PIN).read().split()[0]) == os.getpid():
+            os.remove(PIN)
+    except Exception:
+        pass
+
+
 def generate(write_golden=False):
     """Regenerate lean/PrimitivModel/Gen/OpTable.lean from the working tree.
     The file is rewritten only when its content changes (keeps lake's cache)."""
+    if pinned_by_other() and os.path.exists(OUT):
+        return open(OUT).read()
     txt = render(build_tables())
     os.makedirs(os.path.dirname(OUT), exist_ok=True)
     old = open(OUT).read() if os.path.exists(OUT) else None
